@@ -10,6 +10,9 @@ import NucsProofs.Examples.Bibd
 import NucsProofs.Examples.Alpha
 import NucsProofs.Examples.Donald
 import NucsProofs.Examples.Tsp
+import NucsProofs.Examples.Golomb
+import NucsProofs.Examples.Quasigroup
+import NucsProofs.Examples.Sports
 /-!
   C20 — shipped models yield only valid combinatorial objects, with the known counts.
 
@@ -20,9 +23,13 @@ import NucsProofs.Examples.Tsp
   `C20_queens`, `C20_latinSquare`, `C20_magicSequence` (the redundant constraints are implied),
   `C20_knapsack`, `C20_schurLemma` (+ `C20_schurLemma_sb`: the symmetry-breaking variant only has valid
   solutions), `C20_circuit`, `C20_magicSquare` (+ `_sb`), `C20_sudoku`, `C20_bibd` (+ `_complete`, `_sb`),
-  `C20_alpha`, `C20_donald`, `C20_tsp`.  With C01/C02: every solution the solver produces for these
-  models is a valid object and every valid object is produced exactly once.
-  Not proved: golomb, quasigroup, sports tournament scheduling (modelled and tied, validated by the
-  independent validators); literature COUNTS, preservation of satisfiability and optimum by symmetry
-  breaking (tested: the kernel cannot enumerate 8-queens in reasonable time).
+  `C20_alpha`, `C20_donald`, `C20_tsp`, `C20_golomb` (+ `_sb`, `_sb_valid`; the redundant constraints and the
+  ruler-length bound are implied; `GolombBounds` states the domain bounds the constructor takes from
+  the table of optimal shorter rulers), `C20_latinSquareRC`, `C20_quasigroup`, `C20_quasigroup5`
+  (+ `_sb`, `_sb_valid`: idempotent Latin square with its two dual models; QG5 identity
+  ((b∗a)∗b)∗b = a), `C20_sports` (+ `_sb`, `_sb_valid`, `_every_pair_once`, `_once_a_week`,
+  `_period_bounds`; n even).  With C01/C02: every solution the solver produces for these models is a
+  valid object and every valid object is produced exactly once.  All 15 shipped models are covered.
+  Not proved: literature COUNTS, preservation of satisfiability and optimum by symmetry breaking
+  (tested: the kernel cannot enumerate 8-queens in reasonable time).
 -/
